@@ -309,6 +309,11 @@ def load_info(src, ci, version):
                                 pass
                         if len(ks) == 1:
                             local_from_key[tg.id] = ks[0]
+                        elif not ks:
+                            # a value derived from a local that was read from the archive keeps that provenance (t = npload[k].astype(int); x = t.tolist())
+                            inh = [local_from_key[x.id] for x in ast.walk(s.value) if isinstance(x, ast.Name) and x.id in local_from_key]
+                            if len(set(inh)) == 1:
+                                local_from_key[tg.id] = inh[0]
                         if isinstance(s.value, ast.Call) and unparse(s.value.func) == "cls":
                             objname[0] = tg.id
                         continue
